@@ -46,6 +46,8 @@ def ACOT(number):
     number = utils.parse_number(number)
     if isinstance(number, error.XLError):
         return number
+    if number == 0:
+        return math.pi / 2  # the limit of atan(1/x) at 0+, as in Excel
     return math.atan(1 / number)
 
 
